@@ -629,6 +629,17 @@ def check(case):
                     got_k = sorted((float(a), float(b), float(c)) for a, b, c in dfk[['Time', 'Duration', 'Dose']].values)
                     case.close(np.array(got_k), np.array(sorted(want)), rtol=1e-9,
                                what='regimen of candidate model %d of the averaged model' % (k + 1))
+                # a candidate (posterior predictive model) sampled at ONE late time: the table lists every dose applied up to
+                # that time, also those before the first sampled time
+                smp_c = posts[1].sample(np.array([ft]), n_samples=1, seed=2, include_regimen=True)
+                case.true('Dose' in smp_c.columns, 'no dose column in the table sampled from a posterior predictive model',
+                          kind='missing_column')
+                got_c = sorted((float(a), float(b), float(c)) for a, b, c in
+                               smp_c[smp_c['Dose'].notnull()][['Time', 'Duration', 'Dose']].values)
+                case.equal(len(got_c), len(want), 'number of dose rows of a posterior predictive model sampled at the single '
+                           'time %r: listed %r, scheduled %r' % (ft, [g[0] for g in got_c], [w[0] for w in sorted(want)]))
+                case.close(np.array(got_c), np.array(sorted(want)), rtol=1e-9,
+                           what='dose rows of a posterior predictive model sampled at one late time')
                 # sampled through the averaged model at times given in another order: the table covers the doses up to
                 # the LARGEST requested time
                 t_un = np.array([ft, 0.25 * ft, 0.5 * ft])
